@@ -8,6 +8,12 @@
 #include "TaskBasedRadiationHydrodynamicsSimulation.hpp"
 #include "Timer.hpp"
 
+#include "ParameterFile.hpp"
+#include "PhotonSourceDistributionFactory.hpp"
+#include "LiveOutputManager.hpp"
+#include "TimeLine.hpp"
+
+#include <csignal>
 #include <sys/stat.h>
 #include <unistd.h>
 
@@ -20,6 +26,9 @@ const char *C07_CLASSES[] = {"task-twice",     "task-missing", "dependency-order
                              "overlap",        "lock-not-held", "leftover-tasks",
                              "task-table",     "nontermination", nullptr};
 const char *C10_CLASSES[] = {"layout-dependence", "not-reproducible", nullptr};
+const char *C09_CLASSES[] = {"restart-divergence", "dump-differs",
+                             "roundtrip-bytes", "restart-failed",
+                             "stop-not-honoured", nullptr};
 const char *C04_CLASSES[] = {"mass-not-conserved", "momentum-not-conserved",
                              "energy-not-conserved", "unphysical-state",
                              nullptr};
@@ -57,6 +66,85 @@ int run_rhd(const std::string &paramfile, int threads,
   Timer programtimer;
   return TaskBasedRadiationHydrodynamicsSimulation::do_simulation(
       parser, true, programtimer, nullptr);
+}
+
+std::string slurp(const std::string &path) {
+  std::ifstream f(path, std::ios::binary);
+  return std::string((std::istreambuf_iterator< char >(f)),
+                     std::istreambuf_iterator< char >());
+}
+void copy_file(const std::string &from, const std::string &to) {
+  std::ofstream o(to, std::ios::binary | std::ios::trunc);
+  o << slurp(from);
+}
+
+// read a task-based RHD dump through the same sequence of restart
+// constructors do_simulation uses and write it out again with the
+// write_restart_file members; returns the bytes written
+std::string roundtrip_dump(const std::string &in, const std::string &out,
+                           const Cfg &c) {
+  {
+    RestartReader rd(in);
+    Timer t1(rd), t2(rd), t3(rd), t4(rd);
+    ParameterFile params(rd);
+    const uint_fast32_t lastsnap = rd.read< uint_fast32_t >();
+    const uint_fast32_t lastrad = rd.read< uint_fast32_t >();
+    const int_fast32_t seed = rd.read< int_fast32_t >();
+    DensitySubGridCreator< HydroDensitySubGrid > grid(rd);
+    PhotonSourceDistribution *src =
+        PhotonSourceDistributionFactory::restart(rd, nullptr);
+    LiveOutputManager live(grid.get_subgrid_layout(),
+                           grid.get_subgrid_cell_layout(), params);
+    live.read_restart_info(rd);
+    TimeLine tl(rd);
+    const uint_fast32_t num_step = rd.read< uint_fast32_t >();
+    const double requested = rd.read< double >();
+    const bool has_next = rd.read< bool >();
+    const double actual = rd.read< double >();
+    const double now = rd.read< double >();
+    RestartWriter w(out);
+    t1.write_restart_file(w);
+    t2.write_restart_file(w);
+    t3.write_restart_file(w);
+    t4.write_restart_file(w);
+    params.write_restart_file(w);
+    w.write(lastsnap);
+    w.write(lastrad);
+    w.write(seed);
+    grid.write_restart_file(w);
+    PhotonSourceDistributionFactory::write_restart_file(w, *src);
+    live.write_restart_info(w);
+    tl.write_restart_file(w);
+    w.write(num_step);
+    w.write(requested);
+    w.write(has_next);
+    w.write(actual);
+    w.write(now);
+    delete src;
+  }
+  (void)c;
+  return slurp(out);
+}
+
+// first and last byte at which two dumps differ outside the leading timer
+// block (first > last: identical; first == (size_t)-1: different sizes)
+void dump_diff(const std::string &a, const std::string &b, size_t &first,
+               size_t &last) {
+  first = 1;
+  last = 0;
+  if (a.size() != b.size()) {
+    first = (size_t)-1;
+    last = (size_t)-1;
+    return;
+  }
+  bool any = false;
+  for (size_t o = 192; o < a.size(); ++o)
+    if (a[o] != b[o]) {
+      if (!any)
+        first = o;
+      last = o;
+      any = true;
+    }
 }
 
 class ERhdEngine : public Engine {
@@ -168,15 +256,34 @@ public:
       c.total_time = dt_stable * 64.;
     }
     c.cfl = 0.2;
+    if (prop == "C09") {
+      // the property's premise: one thread; boxes whose sides are not dyadic
+      // multiples of the cell count
+      c.threads = 1;
+      c.steps = (int)r.range(3, 8);
+      c.dump_every_step = true;
+      c.backups = (int)r.range(0, 3);
+      if (r.chance(0.8) && c.dyadic) {
+        c.dyadic = false;
+        for (int k = 0; k < 3; ++k) {
+          c.sides[k] = pc * r.uniform(0.5, 3.);
+          c.anchor[k] = c.sides[k] * r.uniform(-1., 1.);
+        }
+      }
+    }
     c.seed = (int)r.range(1, 100000);
     c.sched = Sched::draw(r, 3000000ull);
     c.sched.total_cap = 80000000ull;
     return c.to_json();
   }
 
+  Outcome execute_c09(const Cfg &c, const Json &cj);
+
   Outcome execute(const Json &cj) {
     Outcome out;
     Cfg c = Cfg::from_json(cj);
+    if (prop == "C09")
+      return execute_c09(c, cj);
     const std::string dir = scratch_dir();
     const std::string pf = c.write_files(dir);
     Ledger L;
@@ -219,6 +326,7 @@ public:
     if (!vclass.empty()) {
       const char **mine = prop == "C10"   ? C10_CLASSES
                           : prop == "C04" ? C04_CLASSES
+                          : prop == "C09" ? C09_CLASSES
                                           : C07_CLASSES;
       if (in_list(mine, vclass)) {
         out.vclass = vclass;
@@ -336,6 +444,20 @@ public:
              "state (fixed time step); tolerance 1e-11 of the local scale "
              "(largest magnitude over the cell and its six neighbours, at "
              "least 1e-3 of the grid maximum)";
+    else if (prop == "C09")
+      what = "restart experiments, one simulated thread: an uninterrupted run "
+             "A with a dump after every step and a per-step digest (FNV-1a "
+             "over the raw bytes of all hydro and ionization variables in "
+             "global cell order, plus requested/actual step, time, has-next); "
+             "then chains of 1-3 stops at seeded steps, each by one of four "
+             "real mechanisms (--number-of-steps, stop file, simulated wall "
+             "clock jumping beyond 'maximum time', SIGINT), each followed by "
+             "--restart from the dump left behind: every later step must be "
+             "bitwise identical to A, every later dump byte-identical to A's "
+             "outside the 192 leading timer bytes and one 8-byte window (the "
+             "re-seeded random seed); one dump per run is read through the "
+             "restart constructors do_simulation uses and written again "
+             "(bytes must be identical)";
     else
       what = "totals of mass, momentum and energy (long double, compensated "
              "summation) are compared before and after every step: all five "
@@ -371,6 +493,279 @@ public:
                        "sides belong to C04/C05)");
   }
 };
+
+// ---------------------------------------------------------------- C09 ----
+Outcome ERhdEngine::execute_c09(const Cfg &c, const Json &cj) {
+  Outcome out;
+  const std::string dir = scratch_dir();
+  const std::string pf = c.write_files(dir);
+  Rng fr(mix64((uint64_t)c.seed, 0xc09));
+  const int N = c.steps;
+  std::string vclass, message;
+  auto fail = [&](const std::string &cl, const std::string &m) {
+    if (vclass.empty()) {
+      vclass = cl;
+      message = m;
+    }
+  };
+  long long restarts = 0, dumps_compared = 0, steps_compared = 0,
+            roundtrips = 0;
+  std::map< std::string, long long > mech_count;
+  uint64_t hash = FNV_INIT;
+  long seed_lo = -1, seed_hi = -1;
+  bool aborted = false, inconclusive = false;
+  RunStats rs_total;
+
+  clock_enable(true);
+  clock_set(1.7e9);
+
+  // one run of do_simulation; dumps are copied as <tag>_dump_<step>
+  struct RunResult {
+    bool finished = false;
+    int rc = -1;
+    std::vector< Ledger::StepRecord > history;
+    bool ledger_failed = false;
+    Violation violation;
+  };
+  auto run = [&](const std::string &tag, const std::vector< std::string > &extra,
+                 int stop_at, int mechanism) {
+    RunResult rr;
+    Ledger L;
+    L.lay.init(c);
+    L.yield_at_task_begin = false;
+    int last_step = 0;
+    L.on_step_begin = [&](Ledger &l) {
+      // the dump of the previous step exists now
+      if (last_step > 0)
+        copy_file(dir + "/restart.dump",
+                  dir + "/" + tag + "_dump_" + std::to_string(last_step));
+      (void)l;
+    };
+    L.on_step_end = [&](Ledger &l) {
+      last_step = l.step;
+      clock_advance(1.);
+      if (l.step == stop_at) {
+        if (mechanism == 1) { // stop file
+          std::ofstream sf(dir + "/stop");
+          sf << "stop\n";
+        } else if (mechanism == 2) { // wall clock limit
+          clock_advance(1e9);
+        } else if (mechanism == 3) { // CTRL+C
+          raise(SIGINT);
+        }
+      }
+    };
+    run_begin(c.sched, &L);
+    rr.finished = guarded([&]() { rr.rc = run_rhd(pf, 1, extra); });
+    RunStats rs = run_end();
+    if (!rr.finished) {
+      aborted = true;
+      inconclusive = rs.inconclusive;
+    }
+    hash = fnv1a(hash, rs.hash);
+    hash = fnv1a(hash, L.ledger_hash);
+    if (last_step > 0 && rr.finished)
+      copy_file(dir + "/restart.dump",
+                dir + "/" + tag + "_dump_" + std::to_string(last_step));
+    rr.history = L.history;
+    rr.ledger_failed = L.failed;
+    rr.violation = L.violation;
+    rs_total.points += rs.points;
+    return rr;
+  };
+
+  // ---- A: the uninterrupted run ----
+  RunResult A = run("A", {"--number-of-steps", std::to_string(N)}, -1, 0);
+  if (!A.finished || A.rc != 0 || A.ledger_failed || A.history.empty()) {
+    // not a C09 matter: the uninterrupted run itself has a problem
+    out.notes.push_back("uninterrupted run did not complete cleanly (decided "
+                        "by other properties)");
+    out.restart_worker = aborted;
+    out.hash = hash;
+    out.stats = Json::object();
+    out.signature = Json::object();
+    clock_enable(false);
+    return out;
+  }
+  const int NA = (int)A.history.size(); // may end early (end of time line)
+  auto A_step = [&](int j) -> const Ledger::StepRecord * {
+    for (auto &h : A.history)
+      if (h.step == j)
+        return &h;
+    return nullptr;
+  };
+
+  // ---- component round trip of a dump ----
+  if (vclass.empty()) {
+    const int j = 1 + (int)fr.below((uint64_t)NA);
+    const std::string in = dir + "/A_dump_" + std::to_string(j);
+    const std::string orig = slurp(in);
+    if (!orig.empty()) {
+      const std::string again = roundtrip_dump(in, dir + "/roundtrip.dump", c);
+      ++roundtrips;
+      if (again != orig) {
+        size_t o = 0;
+        while (o < orig.size() && o < again.size() && orig[o] == again[o])
+          ++o;
+        fail("roundtrip-bytes",
+             sfmt("dump of step %d read through the restart constructors and "
+                  "written again differs: %zu vs %zu bytes, first difference "
+                  "at byte %zu",
+                  j, orig.size(), again.size(), o));
+      }
+    }
+  }
+
+  // ---- restart experiments ----
+  const int nexp = NA >= 2 ? (int)fr.range(1, 3) : 0;
+  for (int e = 0; e < nexp && vclass.empty() && !aborted; ++e) {
+    // a chain of 1-3 stops k1 < k2 < ... < NA
+    std::vector< int > ks;
+    const int links = (int)fr.range(1, 3);
+    for (int l = 0; l < links; ++l) {
+      const int lo = ks.empty() ? 1 : ks.back() + 1;
+      if (lo > NA - 1)
+        break;
+      ks.push_back((int)fr.range(lo, NA - 1));
+    }
+    std::string from_tag = "A";
+    int from_step = 0; // 0 = fresh start
+    for (size_t l = 0; l <= ks.size() && vclass.empty() && !aborted; ++l) {
+      const bool last = l == ks.size();
+      const int target = last ? N : ks[l];
+      const int mechanism = last ? 0 : (int)fr.below(4);
+      static const char *mn[] = {"number-of-steps", "stop file",
+                                 "wall clock limit", "SIGINT"};
+      const std::string tag = sfmt("E%d_%zu", e, l);
+      std::vector< std::string > extra;
+      if (from_step > 0) {
+        // restart from the dump the previous link left behind
+        const std::string rdir = dir + "/" + tag + "_restart";
+        mkdir(rdir.c_str(), 0700);
+        copy_file(dir + "/" + from_tag + "_dump_" + std::to_string(from_step),
+                  rdir + "/restart.dump");
+        extra.push_back("--restart");
+        extra.push_back(rdir);
+        ++restarts;
+      }
+      extra.push_back("--number-of-steps");
+      extra.push_back(std::to_string((mechanism == 0 || last) ? target : N));
+      if (!last)
+        ++mech_count[mn[mechanism]];
+      RunResult B = run(tag, extra, last ? -1 : target, mechanism);
+      if (aborted)
+        break;
+      if (!B.finished || B.rc != 0) {
+        fail("restart-failed", sfmt("run restarted from the dump of step %d "
+                                    "returned %d",
+                                    from_step, B.rc));
+        break;
+      }
+      // the steps this link executed
+      for (auto &h : B.history) {
+        const Ledger::StepRecord *a = A_step(h.step);
+        if (h.step <= from_step || !a) {
+          fail("restart-divergence",
+               sfmt("run restarted from the dump of step %d executed step %d",
+                    from_step, h.step));
+          break;
+        }
+        ++steps_compared;
+        if (h.digest != a->digest || h.actual != a->actual ||
+            h.time != a->time || h.requested != a->requested ||
+            h.has_next != a->has_next) {
+          fail("restart-divergence",
+               sfmt("run restarted from the dump of step %d (stopped by %s): "
+                    "state after step %d differs from the uninterrupted run "
+                    "(digest %016llx vs %016llx, next step %.17g vs %.17g, "
+                    "time %.17g vs %.17g)",
+                    from_step, from_step > 0 ? "restart" : "-", h.step,
+                    (unsigned long long)h.digest,
+                    (unsigned long long)a->digest, h.actual, a->actual, h.time,
+                    a->time));
+          break;
+        }
+        // the dump written after this step
+        const std::string da =
+            slurp(dir + "/A_dump_" + std::to_string(h.step));
+        const std::string db =
+            slurp(dir + "/" + tag + "_dump_" + std::to_string(h.step));
+        if (!da.empty() && !db.empty()) {
+          ++dumps_compared;
+          size_t first, last;
+          dump_diff(da, db, first, last);
+          if (first <= last) {
+            // the only field allowed to differ is the re-seeded random seed:
+            // all differing bytes of all comparisons lie in one 8-byte window
+            const long lo = seed_lo < 0 ? (long)first : std::min(seed_lo, (long)first);
+            const long hi = seed_hi < 0 ? (long)last : std::max(seed_hi, (long)last);
+            if (first == (size_t)-1 || hi - lo >= 8) {
+              fail("dump-differs",
+                   sfmt("dump after step %d of the run restarted from step %d "
+                        "differs from the uninterrupted run's dump outside "
+                        "the timers and the random seed field (bytes %zu..%zu "
+                        "differ, seed field seen at %ld..%ld; sizes %zu / "
+                        "%zu)",
+                        h.step, from_step, first, last, seed_lo, seed_hi,
+                        da.size(), db.size()));
+              break;
+            }
+            seed_lo = lo;
+            seed_hi = hi;
+          }
+        }
+      }
+      if (!vclass.empty())
+        break;
+      const int reached = B.history.empty() ? from_step : B.history.back().step;
+      if (!last && reached != target && reached < NA) {
+        fail("stop-not-honoured",
+             sfmt("stop requested after step %d through '%s' but the run "
+                  "went on to step %d",
+                  target, mn[mechanism], reached));
+        break;
+      }
+      from_tag = tag;
+      from_step = reached;
+      if (reached >= NA)
+        break;
+    }
+  }
+  clock_enable(false);
+
+  if (aborted && !inconclusive && vclass.empty())
+    out.notes.push_back("a run of the restart experiment did not terminate "
+                        "(decided by C07)");
+  out.vclass = vclass;
+  out.message = message;
+  out.restart_worker = aborted;
+  out.hash = hash;
+  out.nontrivial = restarts > 0 && steps_compared > 0;
+  Json st = Json::object();
+  st["restarts"] = restarts;
+  st["steps_compared_after_restart"] = steps_compared;
+  st["dumps_compared"] = dumps_compared;
+  st["component_roundtrips"] = roundtrips;
+  st["hydro_steps_uninterrupted"] = NA;
+  for (auto &kv : mech_count)
+    st["stop_by_" + kv.first] = kv.second;
+  st["points"] = (long long)rs_total.points;
+  bool nondyadic = false;
+  for (int k = 0; k < 3; ++k) {
+    // per subgrid, as the code computes it
+    const double sub = c.sides[k] / c.nsub[k];
+    const int nc = c.ncell[k] / c.nsub[k];
+    if (1. / (sub / nc) != nc / sub)
+      nondyadic = true;
+  }
+  st["runs_with_inexact_inverse_cell_size"] = nondyadic ? 1 : 0;
+  out.stats = st;
+  Json sig = Json::object();
+  sig["inexact_inverse_cell_size"] = nondyadic;
+  out.signature = sig;
+  (void)cj;
+  return out;
+}
 
 } // namespace
 
